@@ -41,11 +41,14 @@ def header? (h : String) : Option Kind :=
   | ["fv", n] => match n.toNat? with
     | some n => if fvSizes.contains n then some (.fv n) else none
     | none => none
+  | ["pfv", n] => match n.toNat? with       -- precompiled FieldVector classes
+    | some n => if fvSizesPre.contains n then some (.fv n) else none
+    | none => none
   | ["dyn", n] => match n.toInt? with
     | some _ => some .dyn
     | none => none
-  | ["tup", sh, r] =>
-    if shapes.contains (sh, r) then
+  | [tp, sh, r] =>
+    if (tp == "tup" || tp == "ptup") && shapes.contains (sh, r) then
       match (sh.splitOn ",").mapM slotTy? with
       | some tys => some (.tup tys (r == "ref"))
       | none => none
@@ -54,12 +57,24 @@ def header? (h : String) : Option Kind :=
 
 def how? (s : String) : Option CtorHow :=
   match s with
-  | "list" => some .list | "tuple" => some .tuple | "args" => some .args | "np" => some .np
-  | "nps2" | "nps3" | "npsm1" | "npsm2" => some .nps
-  | "buf" => some .buf | "fac" => some .fac
+  | "list" => some .list | "tuple" => some .tuple | "args" => some .args
+  | "np" | "buf" => some (.buf 1)
+  | "nps2" => some (.buf 2) | "nps3" => some (.buf 3) | "npsm1" => some (.buf (-1)) | "npsm2" => some (.buf (-2))
+  | "fac" => some .fac
+  | "ilist" => some .ilist | "ituple" => some .ituple | "iargs" => some .iargs
+  | "npi" | "npf32" | "np2d" => some .badbuf
   | _ => none
 
-def seg? (sg : String) : Option Op :=
+/-- Python kind of a vector operand -/
+def okind? (s : String) : Option OKind :=
+  match s with
+  | "list" | "ilist" => some .list
+  | "tuple" => some .tuple
+  | "np" | "buf" => some (.buf 1)
+  | "nps2" => some (.buf 2) | "npsm1" => some (.buf (-1))
+  | _ => none
+
+def vseg? (sg : String) : Option VOp :=
   match sg.splitOn " " with
   | ["new", x, "zero"] => do let x ← x? x; pure (.new x .zero [])
   | ["new", x, how, L] => do
@@ -67,43 +82,64 @@ def seg? (sg : String) : Option Op :=
       pure (.new x h L)
   | ["copy", x, y] => do pure (.copy (← x? x) (← x? y))
   | ["mcopy", x, y] => do pure (.mcopy (← x? x) (← x? y))
+  | ["mcopya", x, y, L] => do pure (.mcopya (← x? x) (← x? y) (← list? L))
   | ["alias", x, y] => do pure (.alias (← x? x) (← x? y))
   | ["add", x, y, z] => do pure (.binvv false (← x? x) (← x? y) (← x? z))
   | ["sub", x, y, z] => do pure (.binvv true (← x? x) (← x? y) (← x? z))
-  | ["addl", x, y, L] => do pure (.binvl false false (← x? x) (← x? y) (← list? L))
-  | ["subl", x, y, L] => do pure (.binvl true false (← x? x) (← x? y) (← list? L))
-  | ["raddl", x, L, y] => do pure (.binvl false true (← x? x) (← x? y) (← list? L))
-  | ["rsubl", x, L, y] => do pure (.binvl true true (← x? x) (← x? y) (← list? L))
-  | ["mul", x, y, k] => do pure (.scal .mul (← x? x) (← x? y) (← int? k))
-  | ["rmul", x, k, y] => do pure (.scal .mul (← x? x) (← x? y) (← int? k))
-  | ["div", x, y, k] => do pure (.scal .div (← x? x) (← x? y) (← int? k))
+  | ["addl", x, y, L] => do pure (.binvl false false .list (← x? x) (← x? y) (← list? L))
+  | ["subl", x, y, L] => do pure (.binvl true false .list (← x? x) (← x? y) (← list? L))
+  | ["raddl", x, L, y] => do pure (.binvl false true .list (← x? x) (← x? y) (← list? L))
+  | ["rsubl", x, L, y] => do pure (.binvl true true .list (← x? x) (← x? y) (← list? L))
+  | ["addo", x, k, y, L] => do pure (.binvl false false (← okind? k) (← x? x) (← x? y) (← list? L))
+  | ["subo", x, k, y, L] => do pure (.binvl true false (← okind? k) (← x? x) (← x? y) (← list? L))
+  | ["raddo", x, k, L, y] => do pure (.binvl false true (← okind? k) (← x? x) (← x? y) (← list? L))
+  | ["rsubo", x, k, L, y] => do pure (.binvl true true (← okind? k) (← x? x) (← x? y) (← list? L))
+  | ["mul", x, y, k] => do pure (.scal .mul false (← x? x) (← x? y) (← int? k))
+  | ["rmul", x, k, y] => do pure (.scal .mul false (← x? x) (← x? y) (← int? k))
+  | ["div", x, y, k] => do pure (.scal .div false (← x? x) (← x? y) (← int? k))
+  | ["ldiv", x, y, k] => do pure (.scal .div false (← x? x) (← x? y) (← int? k))
+  | ["muli", x, y, k] => do pure (.scal .mul true (← x? x) (← x? y) (← int? k))
+  | ["rmuli", x, k, y] => do pure (.scal .mul true (← x? x) (← x? y) (← int? k))
+  | ["divi", x, y, k] => do pure (.scal .div true (← x? x) (← x? y) (← int? k))
   | ["neg", x, y] => do pure (.neg (← x? x) (← x? y))
-  | ["addi", x, y, k] => do pure (.intscal false false (← x? x) (← x? y) (← int? k))
-  | ["subi", x, y, k] => do pure (.intscal true false (← x? x) (← x? y) (← int? k))
-  | ["raddi", x, k, y] => do pure (.intscal false true (← x? x) (← x? y) (← int? k))
-  | ["rsubi", x, k, y] => do pure (.intscal true true (← x? x) (← x? y) (← int? k))
+  | ["addi", x, y, k] => do pure (.intscal false false false (← x? x) (← x? y) (← int? k))
+  | ["subi", x, y, k] => do pure (.intscal true false false (← x? x) (← x? y) (← int? k))
+  | ["raddi", x, k, y] => do pure (.intscal false true false (← x? x) (← x? y) (← int? k))
+  | ["rsubi", x, k, y] => do pure (.intscal true true false (← x? x) (← x? y) (← int? k))
+  | ["addf", x, y, k] => do pure (.intscal false false true (← x? x) (← x? y) (← int? k))
+  | ["subf", x, y, k] => do pure (.intscal true false true (← x? x) (← x? y) (← int? k))
+  | ["raddf", x, k, y] => do pure (.intscal false true true (← x? x) (← x? y) (← int? k))
+  | ["rsubf", x, k, y] => do pure (.intscal true true true (← x? x) (← x? y) (← int? k))
   | ["iadd", x, y] => do pure (.inplaceV false (← x? x) (← x? y))
   | ["isub", x, y] => do pure (.inplaceV true (← x? x) (← x? y))
-  | ["iaddl", x, L] => do pure (.inplaceL false (← x? x) (← list? L))
-  | ["isubl", x, L] => do pure (.inplaceL true (← x? x) (← list? L))
-  | ["iadds", x, k] => do pure (.inplaceS .add (← x? x) (← int? k))
-  | ["isubs", x, k] => do pure (.inplaceS .sub (← x? x) (← int? k))
-  | ["imuls", x, k] => do pure (.inplaceS .mul (← x? x) (← int? k))
-  | ["idivs", x, k] => do pure (.inplaceS .div (← x? x) (← int? k))
+  | ["iaddl", x, L] => do pure (.inplaceL false .list (← x? x) (← list? L))
+  | ["isubl", x, L] => do pure (.inplaceL true .list (← x? x) (← list? L))
+  | ["iaddo", x, k, L] => do pure (.inplaceL false (← okind? k) (← x? x) (← list? L))
+  | ["isubo", x, k, L] => do pure (.inplaceL true (← okind? k) (← x? x) (← list? L))
+  | ["iadds", x, k] | ["iaddi", x, k] => do pure (.inplaceS .add (← x? x) (← int? k))
+  | ["isubs", x, k] | ["isubi", x, k] => do pure (.inplaceS .sub (← x? x) (← int? k))
+  | ["imuls", x, k] | ["imuli", x, k] => do pure (.inplaceS .mul (← x? x) (← int? k))
+  | ["idivs", x, k] | ["idivi", x, k] => do pure (.inplaceS .div (← x? x) (← int? k))
   | ["assign", x, y] => do pure (.assign (← x? x) (← x? y))
-  | ["set", x, i, k] => do pure (.set (← x? x) (← int? i) (← int? k))
-  | ["get", x, i] => do pure (.get (← x? x) (← int? i))
+  | ["assigno", x, k, L] => do pure (.assignL (← okind? k) (← x? x) (← list? L))
+  | ["set", x, i, k] => do pure (.set false (← x? x) (← int? i) (← int? k))
+  | ["setn", x, i, k] => do pure (.set true (← x? x) (← int? i) (← int? k))
+  | ["get", x, i] => do pure (.get false (← x? x) (← int? i))
+  | ["getn", x, i] => do pure (.get true (← x? x) (← int? i))
   | ["len", x] => do pure (.len (← x? x))
   | ["iter", x] => do pure (.iter (← x? x))
   | ["str", x] => do pure (.str (← x? x))
   | ["slice", x, i, j, s] => do pure (.slice (← x? x) (← idx? i) (← idx? j) (← idx? s))
   | ["eq", x, y] => do pure (.cmpv false (← x? x) (← x? y))
   | ["ne", x, y] => do pure (.cmpv true (← x? x) (← x? y))
-  | ["eql", x, L] => do pure (.cmpl false (← x? x) (← list? L))
-  | ["nel", x, L] => do pure (.cmpl true (← x? x) (← list? L))
+  | ["eql", x, L] => do pure (.cmpl false .list (← x? x) (← list? L))
+  | ["nel", x, L] => do pure (.cmpl true .list (← x? x) (← list? L))
+  | ["eqo", x, k, L] => do pure (.cmpl false (← okind? k) (← x? x) (← list? L))
+  | ["neo", x, k, L] => do pure (.cmpl true (← okind? k) (← x? x) (← list? L))
   | ["norms", x] => do pure (.norms (← x? x))
   | ["dot", x, y] => do pure (.dot (← x? x) (← x? y))
-  | ["dotl", x, L] => do pure (.dotl (← x? x) (← list? L))
+  | ["dotl", x, L] | ["rdotl", x, L] => do pure (.dotl .list (← x? x) (← list? L))
+  | ["doto", x, k, L] => do pure (.dotl (← okind? k) (← x? x) (← list? L))
   | ["float", x] => do pure (.float (← x? x))
   | ["view", a, x] => do pure (.view (← a? a) (← x? x))
   | ["npcopy", a, x] => do pure (.npcopy (← a? a) (← x? x))
@@ -116,7 +152,13 @@ def seg? (sg : String) : Option Op :=
   | ["nget", a, i] => do pure (.nget (← a? a) (← int? i))
   | ["nnorms", a] => do pure (.nnorms (← a? a))
   | ["naxpy", a, k, b] => do pure (.naxpy (← a? a) (← int? k) (← a? b))
+  | ["nadd", a, b] => do pure (.nadd (← a? a) (← a? b))
+  | ["nnew", a, b, k] => do pure (.nnew (← a? a) (← a? b) (← int? k))
   | ["nrun", a] => do pure (.nrun (← a? a))
+  | _ => none
+
+def tseg? (sg : String) : Option TOp :=
+  match sg.splitOn " " with
   | ["tnew", t, V] => do pure (.tnew (← t? t) (← list? V))
   | ["tnewa", t, V] => do pure (.tnew (← t? t) (← list? V))
   | ["tlen", t] => do pure (.tlen (← t? t))
@@ -124,12 +166,17 @@ def seg? (sg : String) : Option Op :=
   | ["tlist", t] => do pure (.tlist (← t? t))
   | ["tsetd", t, i, k] => do pure (.tsetd (← t? t) (← int? i) (← int? k))
   | ["tseti", t, i, k] => do pure (.tseti (← t? t) (← int? i) (← int? k))
-  | ["tsetf", t, i, L] => do pure (.tsetf (← t? t) (← int? i) (← list? L))
+  | ["tsetf", t, i, L] | ["tsetl", t, i, L] => do pure (.tsetf (← t? t) (← int? i) (← list? L))
   | ["tsetel", t, i, j, k] => do pure (.elem false (← t? t) (← int? i) (← int? j) (← int? k))
   | ["srcset", t, i, j, k] => do pure (.elem true (← t? t) (← int? i) (← int? j) (← int? k))
   | ["tcopy", t, u] => do pure (.tcopy (← t? t) (← t? u))
   | ["tassign", t, u] => do pure (.tassign (← t? t) (← t? u))
   | _ => none
+
+def seg? (sg : String) : Option Op :=
+  match vseg? sg with
+  | some o => some (.v o)
+  | none => (tseg? sg).map .t
 
 def handle (line : String) : String :=
   match line.splitOn " : " with
